@@ -399,3 +399,35 @@ def finish(ctx: Ctx) -> int:
     print("OK property=%s tier=%s seed=%s evaluations=%d distinct_nontrivial=%d wall=%.1fs" % (
         ctx.pid, ctx.tier, ctx.seed, total.evaluations, len(total.nontrivial), time.time() - ctx.t0))
     return 0
+
+
+def first_diff(a, b, path="$"):
+    """first differing place of two JSON-like values: (path, a_there, b_there) or None"""
+    if type(a) != type(b):
+        return (path, a, b)
+    if isinstance(a, dict):
+        for k in sorted(set(a) | set(b), key=str):
+            if k not in a:
+                return (path + "." + str(k), "<absent>", b[k])
+            if k not in b:
+                return (path + "." + str(k), a[k], "<absent>")
+            d = first_diff(a[k], b[k], path + "." + str(k))
+            if d:
+                return d
+        return None
+    if isinstance(a, (list, tuple)):
+        for i, (x, y) in enumerate(zip(a, b)):
+            d = first_diff(x, y, "%s[%d]" % (path, i))
+            if d:
+                return d
+        if len(a) != len(b):
+            return (path + ".length", len(a), len(b))
+        return None
+    return None if a == b else (path, a, b)
+
+
+def diff_text(a, b, what_a="got", what_b="expected"):
+    d = first_diff(a, b)
+    if not d:
+        return "equal"
+    return "at %s: %s %s, %s %s" % (d[0], what_a, short(d[1], 300), what_b, short(d[2], 300))
